@@ -253,6 +253,9 @@ pub fn run_ladder_case(kvs: &[Kv]) -> Result<u64, String> {
 }
 
 pub fn replay(case: &Value) -> Result<String, String> {
+    if case["gapsv"].as_bool() == Some(true) {
+        return super::c10::run_gaps_versions(case["n"].as_u64().unwrap() as usize, case["variant"].as_u64().unwrap() as usize, case["depth"].as_u64().unwrap() as usize, 1).map(|n| format!("{} ranges agree", n));
+    }
     if let Some(l) = case["ladder_len"].as_u64() {
         let kvs = long_keys_of(&[l as usize]).pop().unwrap().1;
         return run_ladder_case(&kvs).map(|n| format!("{} ranges agree", n));
@@ -301,7 +304,7 @@ fn do_case(kvs: &[Kv], geom: Geom, sc: Scope, st: &mut Stats, rep: &Reporter) {
 
 pub fn plan(tier: Tier) -> Plan {
     let mut p = Plan::new("C03", "model_checking");
-    p.rule = "for every FST of the scope every (lower kind, lower key, upper kind, upper key) - all ordered pairs incl. inverted ranges - is streamed through Fst::range (Map::range and Set::range for sets of <= 3 keys) and compared with the model filter; the stream must stay ended; plus every sequence ge/gt/le/lt(k1) [other-side bound] same-method(k2). Bound keys: all strings of length <= 2 (quick, large sets: <= 1) over {byte below 'a',a,b,c,d} (raw universe: {00,01,7e,7f,80,fe,ff}) plus keys, prefixes, extensions and last-byte +-1 neighbours. non-trivial = FST with >= 2 keys".into();
+    p.rule = "for every FST of the scope every (lower kind, lower key, upper kind, upper key) - all ordered pairs incl. inverted ranges - is streamed through Fst::range (Map::range and Set::range for sets of <= 3 keys) and compared with the model filter; the stream must stay ended; plus every sequence ge/gt/le/lt(k1) [other-side bound] same-method(k2). Bound keys: all strings of length <= 2 (quick, large sets: <= 1) over {byte below 'a',a,b,c,d} (raw universe: {00,01,7e,7f,80,fe,ff}) plus keys, prefixes, extensions and last-byte +-1 neighbours. non-trivial = FST with >= 2 keys; the gap family also written by the independent reference encoder in versions 1, 2 and 3 (every byte as one- and two-byte ge/gt/le/lt bound)".into();
     p.assumptions = vec!["'same kind of bound twice' is read as the same method called twice; mixed ge/gt (le/lt) overriding is not asserted".into()];
     let thorough = tier.thorough();
     for u in [u_ab3(), u_abc2(), u_raw2()] {
@@ -501,6 +504,21 @@ pub fn plan(tier: Tier) -> Plan {
                 match run_ladder_case(&kvs) {
                     Ok(n) => { st.evals += n; st.transitions += n * 4; st.count("length_ladder_ranges", n); }
                     Err(msg) => rep.violation(format!("length ladder {}", name), msg, json!({"ladder_len": kvs.iter().map(|x| x.0.len()).max().unwrap() - 1})),
+                }
+            }
+        }));
+    }
+    // the gap family written by the reference encoder in versions 1, 2 and 3
+    for n in [2usize, 31, 32, 33, 34, 40, 64, 100, 255, 256] {
+        p.units.push(unit("wide-nodes-with-gaps-in-versions-1-2-3", format!("gaps versions fan-out {}", n), move |st, rep| {
+            for variant in 0..5usize {
+                for depth in 0..2usize {
+                    st.states += 3;
+                    st.nontrivial += 3;
+                    match super::c10::run_gaps_versions(n, variant, depth, 1) {
+                        Ok(c) => { st.evals += c; st.transitions += c; st.count("gap_version_queries", c); }
+                        Err(msg) => rep.violation(format!("gaps versions fan-out {} variant {} depth {}", n, variant, depth), msg, json!({"gapsv": true, "n": n, "variant": variant, "depth": depth, "kvs": [], "geom": [3, 3]})),
+                    }
                 }
             }
         }));
